@@ -10,7 +10,7 @@ pub mod case;
 pub mod oracle;
 pub mod run;
 
-use case::{adj_above_guard, Case, Col, LabelKind};
+use case::{adj_above_guard, Case, Col, LabelKind, Layout};
 use proptest::prelude::*;
 use vengine::{enum_sub, prop_sub, Obs, Property, Tier};
 
@@ -38,6 +38,20 @@ fn classify(c: &Case, obs: &mut Obs) {
         c.cols.iter().any(|k| matches!(k, Col::Adj { base } if !adj_above_guard(*base))),
         "adjacent_floats_below_guard",
     );
+    obs.class(match c.layout {
+        Layout::RowMajor => "layout_row_major",
+        Layout::ColMajor => "layout_col_major",
+        Layout::TransposedView => "layout_transposed_view",
+        Layout::StridedView => "layout_strided_view",
+        Layout::ReversedRows => "layout_reversed_rows",
+    });
+    obs.class_if(
+        matches!(c.layout, Layout::ColMajor | Layout::TransposedView) && c.p() >= 2 && c.n() >= 2,
+        "col_major_multi_feature",
+    );
+    obs.class_if(matches!(c.layout, Layout::RowMajor | Layout::ColMajor), "fit_through_dataset");
+    obs.class_if(!matches!(c.layout, Layout::RowMajor | Layout::ColMajor), "fit_through_dataset_view");
+    obs.class_if(c.qlayout != Layout::RowMajor && !c.queries.is_empty(), "query_layout_not_row_major");
     obs.class_if(c.n() == 1, "n_1");
     obs.class_if(c.n() > 60, "n_large");
     let x = c.x();
@@ -195,7 +209,18 @@ fn case_strategy(fam: Family, tier: Tier) -> impl Strategy<Value = Case> {
         any::<bool>(),                                                               // f32
     );
     let queries = proptest::collection::vec(proptest::collection::vec(any::<u8>(), 4), 0..=5);
+    let layout = || {
+        prop_oneof![
+            3 => Just(Layout::RowMajor),
+            3 => Just(Layout::ColMajor),
+            2 => Just(Layout::TransposedView),
+            1 => Just(Layout::StridedView),
+            1 => Just(Layout::ReversedRows),
+        ]
+    };
+    let queries = (queries, layout(), layout());
     (rows, cols, hyper, shape, queries).prop_map(move |(rows, cols, hyper, shape, queries)| {
+        let (queries, layout, qlayout) = queries;
         let (p, r, k, label, ymode, weighted, f32_) = shape;
         let k = if label == LabelKind::Bool { 2 } else { k };
         let cols: Vec<Col> = [cols.0, cols.1, cols.2, cols.3][..p].to_vec();
@@ -261,9 +286,14 @@ fn case_strategy(fam: Family, tier: Tier) -> impl Strategy<Value = Case> {
             min_weight_leaf,
             min_impurity_decrease,
             queries,
+            layout,
+            qlayout,
         }
     })
 }
+
+const LAYOUTS: [Layout; 5] =
+    [Layout::RowMajor, Layout::ColMajor, Layout::TransposedView, Layout::StridedView, Layout::ReversedRows];
 
 /// exhaustive small stratum: every dataset with one feature, n <= N rows, `vals` distinct values and
 /// `labs` labels; hyper-parameters cycle deterministically through a fixed table.
@@ -307,6 +337,8 @@ fn enumerate(col: Col, vals: u8, labs: u8, nmax: usize, depths: &[Option<u8>], b
                 min_weight_leaf: mwl,
                 min_impurity_decrease: mid,
                 queries: vec![vec![(h % 8) as u8], vec![((h / 8) % 8) as u8]],
+                layout: LAYOUTS[(h / 13) % 5],
+                qlayout: LAYOUTS[(h / 17) % 5],
             });
         }
     }
@@ -320,7 +352,7 @@ pub fn property() -> Property {
                fine grid around linfa's 1e-5 equal-value guard, consecutive floats f32>=128 / f64>=2^37 whose midpoint rounds onto a sample), \
                2..=6 classes as usize/bool/String, labels random or a noisy function of the features, optional dyadic weights, both criteria, \
                max_depth None/0/1/2/3/5(/12), min_weight_split 1/1.5/2/2.5/3.5/4.25/5/10, min_weight_leaf 0.5/0.75/1/1.5/2/2.25/5, min_impurity_decrease 1e-5/0.01/0.2, \
-               plus query rows on half steps; exhaustive one-feature strata (3 grid values x 3 labels, n<=5 quick / 6 thorough; 4 consecutive floats at 200 x 2 labels, n<=5/6; 6 consecutive floats across the 256 binade x 2 labels, n<=4/5; hyper-parameters cycle through a fixed table). \
+               plus query rows on half steps; training and query records in one of five memory layouts (row-major owned, column-major owned, transposed view of a features-by-samples buffer, strided view skipping junk rows, reversed rows; owned layouts fitted through Dataset, views through DatasetView); exhaustive one-feature strata (3 grid values x 3 labels, n<=5 quick / 6 thorough; 4 consecutive floats at 200 x 2 labels, n<=5/6; 6 consecutive floats across the 256 binade x 2 labels, n<=4/5; hyper-parameters cycle through a fixed table). \
                Non-trivial = fitted tree has >= 2 split nodes, or a reached leaf has a weighted tie for the mode, or the case contains a \
                consecutive-float column above the guard; distinct = distinct canonical JSON of the case",
         assumptions: vec![
@@ -337,10 +369,10 @@ pub fn property() -> Property {
         subs: vec![
             prop_sub("grid", 400000, 3000000, |t: Tier| case_strategy(Family::Grid, t), check)
                 .chunks(32)
-                .require(&["splits_2plus", "leaf_weighted_tie", "duplicates_conflicting_labels", "max_depth_none", "max_depth_0", "fractional_min_weight_split", "impure_leaf_with_floor_min_weight_split_rows"]),
+                .require(&["splits_2plus", "leaf_weighted_tie", "duplicates_conflicting_labels", "max_depth_none", "max_depth_0", "fractional_min_weight_split", "impure_leaf_with_floor_min_weight_split_rows", "col_major_multi_feature", "records_contiguous_not_standard_layout", "records_not_contiguous"]),
             prop_sub("adjacent_finite", 150000, 1000000, |t: Tier| case_strategy(Family::AdjFinite, t), check)
                 .chunks(16)
-                .require(&["adjacent_floats", "threshold_equals_training_value"]),
+                .require(&["adjacent_floats", "threshold_equals_training_value", "col_major_multi_feature", "records_contiguous_not_standard_layout"]),
             // max_depth(None) on consecutive floats can recurse without bound inside fit (stack overflow kills
             // the worker): one case per child process, so a crash costs exactly that case
             prop_sub("adjacent_unbounded", 64, 640, |t: Tier| case_strategy(Family::AdjUnbounded, t), check).chunks(640),
